@@ -1,7 +1,7 @@
 SPECIFICATION Spec
-CONSTANT N = 5
-CONSTANT Finetune = TRUE
-CONSTANT QType = "neg"
+CONSTANT N = 4
+CONSTANT Finetune = FALSE
+CONSTANT QType = "sta"
 CONSTANT GN = 1
 CONSTANT GD = 1
 CONSTANT Vals <- VS
